@@ -62,6 +62,13 @@ class Compiler:
             return self.expr(e[1]) + [("PUSH", 0), "MSTORE", ("PUSH", e[2]), ("PUSH", 32), "MSTORE", ("PUSH", 64), ("PUSH", 0), "SHA3"]
         if k == "arrkey":  # keccak(slot) + index
             return self.expr(e[1]) + [("PUSH", e[2]), ("PUSH", 0), "MSTORE", ("PUSH", 32), ("PUSH", 0), "SHA3", "ADD"]
+        if k == "mapkeyx":  # keccak(key . base) with an arbitrary base expression (nested mappings)
+            return self.expr(e[2]) + self.expr(e[1]) + [("PUSH", 0), "MSTORE", ("PUSH", 32), "MSTORE", ("PUSH", 64), ("PUSH", 0), "SHA3"]
+        if k == "mapkeyw":  # keccak(key[w bytes] . base): abi.encodePacked-style odd-width key
+            w = e[3]
+            return self.expr(e[2]) + self.expr(e[1]) + [("PUSH", 8 * (32 - w)), "SHL", ("PUSH", 0), "MSTORE", ("PUSH", w), "MSTORE", ("PUSH", w + 32), ("PUSH", 0), "SHA3"]
+        if k == "arrx":  # keccak(base) (dynamic array data start) with an arbitrary base expression
+            return self.expr(e[1]) + [("PUSH", 0), "MSTORE", ("PUSH", 32), ("PUSH", 0), "SHA3"]
         if k == "extsize":
             return self.expr(e[1]) + ["EXTCODESIZE"]
         if k == "exthash":
